@@ -223,6 +223,7 @@ func (ord *Order) Calculate() error {
 	if ord.HasTags(tax.TagCustomerRates) {
 		applyCustomerRates(ord)
 	}
+	dropRegimeCountry(ord)
 	ord.Normalize(ord.normalizers())
 	return calculate(ord)
 }
